@@ -133,6 +133,10 @@ def runner_sub(ctx, rule, origin):
     return runner.Sub(ctx, rule, origin)
 
 
+# private helpers and the public method they serve (used when the helper no longer exists as a function): name -> (caller, amount reserved there)
+INLINED_INTO = {'append_elements': ('append', ('load', ('fld', ('deref', ('param', 2)), 'collections::vec::Vec.len'), 0))}
+
+
 def run(ctx, config='rel-all'):
     A = arena.analyse(ctx, config)
     db = ctx.db(config)
@@ -296,6 +300,10 @@ def run(ctx, config='rel-all'):
         n5 = 0
         for (adt, name), want in [(k, 'Amortized') for k in AMORTIZED] + [(k, 'Exact') for k in EXACT]:
             bs = [x for x in db.fn_bodies() if x['kind'] == 'assoc_fn' and x['meta'].get('name') == name and (x['meta'].get('impl_adt') or '').endswith(adt) and not x['meta'].get('impl_trait')]
+            if not bs and name in INLINED_INTO:
+                # a private helper that was inlined into its only caller: the caller is the growing entry point
+                name = INLINED_INTO[name][0]
+                bs = [x for x in db.fn_bodies() if x['kind'] == 'assoc_fn' and x['meta'].get('name') == name and (x['meta'].get('impl_adt') or '').endswith(adt) and not x['meta'].get('impl_trait')]
             if not bs:
                 ctx.anchor_missing('O5', '%s::%s' % (adt, name))
                 continue
@@ -322,6 +330,9 @@ def run(ctx, config='rel-all'):
         n8 = 0
         for adt, name, want in WANT:
             bs = [x for x in db.fn_bodies() if x['kind'] == 'assoc_fn' and x['meta'].get('name') == name and (x['meta'].get('impl_adt') or '').endswith(adt) and not x['meta'].get('impl_trait')]
+            if not bs and name in INLINED_INTO:
+                name, want = INLINED_INTO[name]
+                bs = [x for x in db.fn_bodies() if x['kind'] == 'assoc_fn' and x['meta'].get('name') == name and (x['meta'].get('impl_adt') or '').endswith(adt) and not x['meta'].get('impl_trait')]
             if not bs:
                 ctx.anchor_missing('O8', '%s::%s' % (adt, name))
                 continue
